@@ -296,7 +296,7 @@ class C10(TreeSpec):
             return drive_engine.gen_engine_plan(r, "mixed", tier)
         if k == 5:
             return drive_tree.gen_ill_plan(r, self.ILL[(i // 6) % len(self.ILL)], tier)
-        return drive_tree.gen_plan(r, "sizing" if k == 4 else "accounting", tier)
+        return drive_tree.gen_plan(r, "sizing" if k == 4 else ("fi" if k == 2 else "accounting"), tier)
 
     def run(self, bt, plan):
         res = TreeSpec.run(self, bt, plan)
